@@ -47,15 +47,15 @@ func c15Key(seed []byte) (ed25519.PrivateKey, ed25519.PublicKey) {
 }
 
 type c15ProveCase struct {
-	Seed    h.Hex
-	Alpha   h.Hex
-	V10     bool
-	Entropy h.Hex // bytes served by the entropy reader
-	EntCls  string
-	Chunk   int   // max bytes per Read (0 = unlimited)
-	Short   int   // if > 0 the stream ends after Short (< 32) bytes
-	Seed2   h.Hex // an unrelated key
-	AlphaBit int  // which bit of alpha to flip for the neighbour (if alpha non-empty)
+	Seed     h.Hex
+	Alpha    h.Hex
+	V10      bool
+	Entropy  h.Hex // bytes served by the entropy reader
+	EntCls   string
+	Chunk    int   // max bytes per Read (0 = unlimited)
+	Short    int   // if > 0 the stream ends after Short (< 32) bytes
+	Seed2    h.Hex // an unrelated key
+	AlphaBit int   // which bit of alpha to flip for the neighbour (if alpha non-empty)
 }
 
 func c15GenSeed(t *rapid.T, label string) []byte {
